@@ -39,26 +39,26 @@ CHECKS = {
  "C08": ("exploration", "model-based history checking (65536-bit reference set) with a link-time allocation monitor for leaks, under ASan/UBSan",
          "Thousands of seeded histories of 50-400 operations over up to 8 live bitmaps are replayed against a mathematical set; return values, cardinality, emptiness, memberships every step and full export/iteration at container changes; the workload is aimed at cardinality 4096 crossings, ranges > 4096 on non-empty and RUNS-typed objects, operations after deserialisation; every container transition must be observed >= 50 times.",
          "trusts: sanitizer runtime, reference bitset, malloc wrapper", "2/C08"),
- "C09": ("exploration", "exhaustive instantiation of the template (111 configurations) + whole-storage before/after diff against a bit-exact layout model, exact-size storage under ASan",
+ "C09": ("exploration", "exhaustive instantiation of the template (118 configurations incl. 8- and 16-bit length types filled to their maximum) + whole-storage before/after diff against a bit-exact layout model, exact-size storage under ASan",
          "All legal (bits, slot type, compact, micro-promotion) instantiations are generated and each is driven with Set/SetIncr/SetHalf at boundary and random positions over random prior contents, then sorted and positional histories against a reference array; exhaustive over configurations, sampled over values/positions.",
          "trusts: the legality rule bits <= slotbits + gcd(bits, slotbits); interior reads of neighbouring slots are not observable", "2/C09"),
  "C10": ("exploration", "whole-buffer before/after comparison against the documented header/cell layout, exact-size buffers under ASan, all 72 header width pairs",
          "Pack/Unpack on nibble boundaries and >= 2^32 refusals; every (row width, col width) header combination with min/max/random values into an exact-size destination; matrices of every entry kind (bit, 1-8 byte unsigned, float, double, half-float with F16C) with 100-500 writes each, every write checked for read-back and for changing nothing but the addressed cell.",
          "trusts: harness layout arithmetic; byte cells behind 5-8 byte column counts are not backed by memory (bit vectors > 2^32 columns in the thorough tier)", "2/C10"),
- "C11": ("exploration", "exhaustive (offset mod word, width) enumeration for both documented word types; whole-stream diff against an MSB-first bit model; exact-size streams under ASan",
-         "All 64x64 + 32x32 (offset, width) pairs at three word positions with many (value, prior contents) samples; the stream ends at the last overlapped word so touching any other word aborts under ASan; signed helper round trips; 1000-field append sequences.",
+ "C11": ("exploration", "exhaustive (offset mod word, width) enumeration for the documented word types, the 16/8-bit pairs and each slot type with the default value type; whole-stream diff against an MSB-first bit model; exact-size streams under ASan",
+         "All (offset, width) pairs of every word type (64x64, 32x32, 16x16, 8x8) at three word positions, run-time and compile-time-literal widths, offsets around 2^31..2^34 in lazily mapped streams, with many (value, prior contents) samples; the stream ends at the last overlapped word so touching any other word aborts under ASan; signed helper round trips; 1000-field append sequences.",
          "trusts: sanitizer runtime, bit model", "2/C11"),
  "C14": ("exploration", "hostile-input monitor: exact-size heap copies of the declared bytes (ASan), per-input alarm, link-time allocation-size monitor",
-         "Valid encodings, every truncation, mutations, random strings and structured hostile headers for the seven length-taking entry points; any read at/after the declared size aborts under ASan (with and without NDEBUG); Elias bit budgets are checked by flipping the undeclared bits of the last byte; allocation requests above max(16 MiB, 64 L) and hangs are violations; both accepted and rejected outcomes must be observed per entry point.",
+         "Valid encodings, every truncation (plus the last 16 bytes of long ones), mutations, random strings and structured hostile headers (wrapping counts, boundary-size dictionaries with extreme indices, complete-looking bitmap containers the encoder never produces) for the seven length-taking entry points; any read at/after the declared size aborts under ASan (with and without NDEBUG); Elias bit budgets are checked by flipping the undeclared bits of the last byte; allocation requests above max(16 MiB, 64 L) and hangs are violations; both accepted and rejected outcomes must be observed per entry point.",
          "trusts: sanitizer runtime; 10 s alarm as termination bound", "2/C14"),
  "C15": ("exploration", "perturbed-history differential (9 worlds: order, preceding calls, stack painting, heap residue) + MSan + cross-build digests (+ memcheck in thorough)",
          "The same deterministic list of API calls is executed in nine worlds and five build configurations; per-call result digests must be identical everywhere; the stack is painted with the very value the code would compare against (the call's element count); MSan checks every library output the harness consumes; a crash in any world is a violation.",
          "trusts: MSan/ASan runtimes; call list covers the API groups listed in the evidence", "2/C15"),
- "C17": ("exploration", "ThreadSanitizer on barrier-released and permuted multi-thread workloads + sequential-reference differential + overlap recorder (helgrind in thorough)",
-         "2-16 threads run every codec/scalar/float/packed/bitstream op over shared read-only inputs with private outputs; lock-step rounds put all threads inside the same function, permuted rounds mix ops; TSan reports with a frame in the library are violations, results are compared with sequential references, and the evidence lists which (op, op') pairs were actually observed overlapping.",
+ "C17": ("exploration", "ThreadSanitizer on barrier-released, permuted and cold-start multi-thread workloads over mprotect-ed read-only shared inputs + sequential-reference differential + overlap recorder (helgrind in thorough)",
+         "2-16 threads run every codec/scalar/float/packed/bitstream op over shared inputs (up to 70001 elements, 64-bit at 0/8 and 32-bit at 0/4/8/12 mod 16) that are mapped read-only before the first thread starts, with private outputs; cold-start processes release all threads on the first library call of the process; lock-step rounds put all threads inside the same function, permuted rounds mix ops; TSan reports with a frame in the library are violations, results are compared with sequential references, and the evidence lists which (op, op') pairs were actually observed overlapping.",
          "trusts: TSan's happens-before model over the produced schedules (not all interleavings)", "2/C17"),
- "C18": ("fault_enumeration", "link-time allocation-failure injection (--wrap=malloc/calloc/realloc/free), exhaustive over failure position k per scenario, one forked child per fault, under ASan",
-         "For 266 (allocating API x input) scenarios the k-th allocation is failed for every k = 1..N in a forked child: no crash, no leaked block, success only with correct output, long-lived objects consistent and usable afterwards; the set of allocation call sites that were failed is resolved with addr2line and compared with the malloc/calloc/realloc sites of the five anchored files.",
+ "C18": ("fault_enumeration", "link-time allocation-failure injection (--wrap of every libc allocation entry point), exhaustive over failure position k per scenario, one forked child per fault, under ASan",
+         "For 306 (allocating API x input) scenarios the k-th allocation is failed for every k = 1..N in a forked child: no crash, no leaked block, success only with correct output, long-lived objects consistent and usable afterwards; the set of allocation call sites that were failed is resolved with addr2line and compared with the malloc/calloc/realloc sites of the five anchored files.",
          "trusts: malloc wrapper, sanitizer runtime; single-fault model (one failing allocation per execution)", "2/C18"),
 }
 
